@@ -178,3 +178,59 @@ func init() {
 		},
 	}))
 }
+
+// swarmAppsafe: two instances, application commits biased to the windows
+// around Lightning Stream's own transactions, frequent empty transactions
+// (restarts re-deliver everything, peers re-upload identical content).
+func swarmAppsafe(t *Tape) FleetCfg {
+	c := swarmBase(t)
+	c.N = 2 + t.Weighted("cfg-n2", []int{4, 1})
+	c.AppRate = pick(t, "cfg-apprate2", 250, 120, 400)
+	c.AppTxns = 6 + t.Choose("cfg-apptxns2", 30)
+	c.PreferPoints = []string{"loadonce:after-txn", "sendonce:after-txn", "sync:before-change-check",
+		"sync:before-send", "sync:after-load", "sync:before-load", "sendonce:in-view", "sync:loop-top"}
+	c.PreferBias = pick(t, "cfg-prefer", 700, 300, 950)
+	c.CrashRate = pick(t, "cfg-crash2", 0, 8, 20)
+	c.Work.MaxOps = 1 + t.Choose("cfg-maxops2", 2)
+	return c
+}
+
+func appAtInteresting(r *RunResult) bool {
+	for k := range r.Probes {
+		switch k {
+		case "app-at:loadonce:after-txn", "app-at:sendonce:after-txn", "app-at:sync:before-send", "app-at:sendonce:in-view", "app-at:sync:after-load":
+			return true
+		}
+	}
+	return false
+}
+
+func init() {
+	RegisterProfile(fleetProfile("fleet-appsafe", "C03", FleetRun{
+		Gen:  swarmAppsafe,
+		Mons: func(f *Fleet) []Monitor { return []Monitor{&MonC03{}} },
+		Post: func(f *Fleet, r *RunResult) {
+			m := f.Mon[0].(*MonC03)
+			r.Counts["ls_txns_checked"] = m.Checked
+			r.Nontrivial = m.Checked > 0 && f.Stats.AppTxns > 0
+		},
+	}))
+	RegisterProfile(fleetProfile("fleet-publish", "C09", FleetRun{
+		Gen: func(t *Tape) FleetCfg {
+			c := swarmAppsafe(t)
+			// Store failures shorter than the retry budget
+			if t.Choose("cfg-storefail", 2) == 1 {
+				c.Faults = FaultCfg{Active: true, StoreErr: 150}
+				c.RetryCnt = 6
+			}
+			return c
+		},
+		Mons: func(f *Fleet) []Monitor { return []Monitor{&MonC09{}} },
+		Post: func(f *Fleet, r *RunResult) {
+			m := f.Mon[0].(*MonC09)
+			r.Counts["idle_checks"] = m.IdleChk
+			r.Counts["end_checks"] = m.EndChk
+			r.Nontrivial = m.IdleChk+m.EndChk > 0 && f.Stats.AppTxns > 0
+		},
+	}))
+}
